@@ -105,71 +105,95 @@ Example c04_nonvacuous :
   c_shard_index KInt8 (-5) [] 16 = 11 /\ c_shard_index KString 0 [97; 98; 99] 16 = 11.
 Proof. vm_compute. repeat split. Qed.
 
+
 (* ================================================================== atomicity of the calls
-   models/CacheSteps.v executes Load / Get2 / Set / worker setValue / removeRotted one shared
-   access at a time (one step per yield site of the hooked code, mutex acquisition disabled
-   while the mutex is held, explicit clock ticks between any two steps) and carries, as ghost
-   state, a run of the ATOMIC machine Cache.v: cs_g is advanced at the linearization points of
-   the state-changing calls, every Get2 / job-less Load collects the atomic output at every
-   instant of its call interval (ct_cands), and cs_mis is raised as soon as a real result is
-   not the atomic output at the call's linearization point / at some instant of its interval.
+   models/CacheSteps.v executes Load / Get2 / Set / the worker's setValue / removeRotted one
+   shared access at a time (one step per yield site of the hooked code, mutex acquisition
+   disabled while the mutex is held, explicit clock ticks between any two steps), in the order
+   of the code now in /repo ([CsFixed]: Get2 and Load take the status decision AND the choice
+   of the future to hand out under the shard mutex) or in the order before commit 4caabe5
+   ([CsOrig]).  As ghost state it carries a run of the ATOMIC machine Cache.v: cs_g is advanced
+   at the linearization points of the state-changing calls (job-creating Load: its decision
+   step under the lock; worker: CStart at the channel receive, CFinish at the store of
+   predecessor, the LAST store of setValue; tick: CAdvance), every Get2 / job-less Load collects
+   the atomic output at every instant of its call interval (ct_cands), and cs_mis is raised as
+   soon as a real result is not the atomic output at the call's linearization point / at some
+   instant of its interval.  cs_bad records a clock tick dt > 0 inside a window cs_in_window:
+   between setValue's time.Now() and its store of predecessor (NECESSARY: the stamp is read
+   before it is published; with Finish placed at the store of updateTime instead, a reader that
+   starts after it can still see the old predecessor, so the store of predecessor is the only
+   possible linearization point and the clock must not move in between), and between a Load's
+   time.Since and its decision in the same critical section (convenience of the proof: the
+   atomic Load is placed at the decision step; no counterexample exists in the explored space).
 
-   INTENDED THEOREM (not proved in full; the name is reserved):
-     cache_calls_linearize :
-       forall cfg progs sched, c_cfg_ok cfg -> cs_progs_covered progs = true ->
-       let s := cs_run cfg (cs_init progs) sched in cs_bad s = false -> cs_mis s = false.
-   i.e. for programs of Load / Get2 / worker calls and every schedule whose clock ticks stay
-   outside the windows cs_in_window, the small-step machine refines Cache.v.  It is FALSE
-   without the window hypothesis and FALSE for programs with Set (concrete schedules below and
-   in corpus/C04/call-steps.txt, reproduced on the real code).
-
-   PROVED (this file): (1) the ghost run is an atomic history of Cache.v for ALL programs and
-   schedules, so "cs_mis = false" on a run means exactly: the run linearizes with the events
-   cs_evs; (2) the simulation invariant cs_inv (proofs/CacheStepsProofs.v) holds initially,
-   implies cs_mis = false, and is preserved by every step of a thread that is at one of the
-   lock-free read sites of Get2 / Load (status of the entry, predecessor, status of the
-   predecessor): whatever the other threads and the clock did between its reads, its result is
-   the atomic output at some instant of its call.  The interference part of the argument is
-   proved once and for all (cs_tinv_ext: every thread's invariant is stable under any
-   environment step satisfying cs_ext, including a concurrent setValue finishing the very
-   future being read).  NOT proved: that the steps under the mutex, sendJob, the worker's three
-   stores and the clock tick preserve cs_inv (each needs its cs_ext instance); this part is
-   checked by computation only (cs_mis = false on every explored schedule, stream call-steps). *)
+   FULL STATEMENT (all five operations):
+     cache_calls_linearize : forall cfg progs sched, c_cfg_ok cfg ->
+       let s := cs_run CsFixed cfg (cs_init progs) sched in cs_bad s = false -> cs_mis s = false.
+   PROVED below for programs of Load / Get2 / worker calls (cs_progs_covered), every number of
+   threads, keys and calls, every schedule.  Left out: Set (the atomic machine starts "the
+   first queued job of a KEY", the real channel is FIFO over all jobs: after a Set displaced a
+   job whose sendJob is still pending the two orders differ, so the ghost worker events do not
+   match although no caller-visible result is affected) and removeRotted (needs the
+   "rotted = absent" simulation of C05 on top).  For these the mismatch flag is evaluated on
+   every explored schedule: 0 mismatches in > 2,400,000 enumerated schedules (stream call-steps). *)
 Theorem cache_steps_ghost_is_atomic_history :
-  forall cfg progs sched,
-  let s := cs_run cfg (cs_init progs) sched in
+  forall md cfg progs sched,
+  let s := cs_run md cfg (cs_init progs) sched in
   cs_g s = c_run cfg c_init (rev (cs_evs s)).
 Proof. exact cs_ghost_is_history. Qed.
 Print Assumptions cache_steps_ghost_is_atomic_history.
 
+(* the small-step machine (Fixed order) refines Cache.v: no result of any Load / Get2 / worker
+   call ever differs from the output of its atomic event in the atomic history cs_evs -- for a
+   job-creating Load at its decision step, for a Get2 / job-less Load at some instant between
+   its first and its last step -- and that history is a run of Cache.v from the initial state,
+   so every theorem of C04 / C05 about Cache.v holds for the results of the real interleavings *)
 Theorem cache_calls_linearize_partial :
-  forall cfg,
-  c_cfg_ok cfg ->
-  (forall progs, cs_progs_covered progs = true -> cs_inv cfg (cs_init progs)) /\
-  (forall s, cs_inv cfg s -> cs_mis s = false) /\
-  (forall s tid t, cs_inv cfg s -> nth_error (cs_thr s) tid = Some t -> cs_reader_pc (ct_pc t) = true ->
-     cs_inv cfg (fst (cs_step cfg s (CsRun tid)))).
-Proof.
-  intros cfg Hcfg. split; [intros progs H; apply cs_inv_init; exact H|].
-  split; [intros s I; apply (si_mis _ _ I)|].
-  intros s tid t I Ht Hr. eapply cs_reader_step_inv; eauto.
-Qed.
+  forall cfg progs sched,
+  c_cfg_ok cfg -> cs_progs_covered progs = true ->
+  let s := cs_run CsFixed cfg (cs_init progs) sched in
+  cs_bad s = false ->
+  cs_mis s = false /\ cs_g s = c_run cfg c_init (rev (cs_evs s)).
+Proof. exact cs_refines. Qed.
 Print Assumptions cache_calls_linearize_partial.
 
-(* genuine non-atomicity, Set involved (E = 3600, future 0 = 5400 old = stale, future 1 = its
+(* ORIG order refuted, no clock tick (E = 3600, future 0 = 5400 old = stale, future 1 = its
    refresh, loading, predecessor 0): Get2 reads the map (entry 1) and unlocks; Set replaces the
    entry by future 2; the worker's setValue of future 1 starts afterwards; Get2 loads
    updateTime(1) = zero (Good), the worker stores updateTime and clears the predecessor, Get2
    loads predecessor(1) = nil and returns future 1.  At every instant of the call the atomic
-   Get2 answers future 0 (before the Set) or future 2 (after it): the candidate set of the
-   call does not contain OAwait 1.  No clock tick is involved. *)
-Example cache_get2_set_finish_not_atomic :
+   Get2 answers future 0 (before the Set) or future 2 (after it).  In the Fixed order the same
+   programs under the same schedule (and every other one explored) linearize. *)
+Theorem cache_get2_set_finish_orig_refuted :
   let cfg := {| c_normE := 3600; c_errE := 1200 |} in
   let m0 := c_run cfg (cs_backdate (c_run cfg c_init [CLoad 0; CStart 0; CFinish 0 0 5 0]) 0 5400) [CLoad 0] in
-  let s := cs_run cfg (cs_init_on m0 [[CsGet2 0]; [CsSet 0 3 0]; [CsFinish 9 0]])
-             (map CsRun [0;0;0;0; 1;1;1;1;1;1; 2;2; 0; 2;2; 0])%nat in
-  cs_bad s = false /\ cs_mis s = true /\
-  cs_log s = [(0%nat, CsGet2 0, CsRVal 0 0, OAwait 1%nat); (2%nat, CsFinish 9 0, CsRFin 1%nat, OFinish 1%nat);
-              (1%nat, CsSet 0 3 0, CsRNone, ONone)] /\
-  option_map (fun t => nodup cs_out_eq_dec (ct_cands t)) (nth_error (cs_thr s) 0) = Some [OAwait 2%nat; OAwait 0%nat].
+  let sched := map CsRun [0;0;0;0; 1;1;1;1;1;1; 2;2; 0; 2;2; 0]%nat in
+  let s := cs_run CsOrig cfg (cs_init_on m0 [[CsGet2 0]; [CsSet 0 3 0]; [CsFinish 9 0]]) sched in
+  (cs_bad s = false /\ cs_mis s = true /\
+   cs_log s = [(0%nat, CsGet2 0, CsRVal 0 0, OAwait 1%nat); (2%nat, CsFinish 9 0, CsRFin 1%nat, OFinish 1%nat);
+               (1%nat, CsSet 0 3 0, CsRNone, ONone)] /\
+   option_map (fun t => nodup cs_out_eq_dec (ct_cands t)) (nth_error (cs_thr s) 0) = Some [OAwait 2%nat; OAwait 0%nat]) /\
+  cs_mis (cs_run CsFixed cfg (cs_init_on m0 [[CsGet2 0]; [CsSet 0 3 0]; [CsFinish 9 0]]) (sched ++ map CsRun [0;0;0;2;2;2;2]%nat)) = false.
 Proof. vm_compute. repeat split. Qed.
+Print Assumptions cache_get2_set_finish_orig_refuted.
+
+(* ORIG order refuted (C05): the entry (future 0) is fresh at Get2's map read; the clock
+   advances, a Load finds it stale and starts the refresh (future 1, loading); future 0 rots;
+   Get2 evaluates future 0 after its Unlock: rotted: it answers (nil, nil) at once although at
+   every instant of the call the key had a servable entry -- OImmediate is not among the atomic
+   answers of the call interval (all of them await future 0 or future 1).  Fixed order: Get2
+   holds the mutex from the map read to the decision, the Load cannot get in between, and the
+   run linearizes (Get2 awaits a future). *)
+Theorem cache_get2_stall_orig_refuted :
+  let cfg := {| c_normE := 3600; c_errE := 1200 |} in
+  let m0 := cs_backdate (c_run cfg c_init [CLoad 0; CStart 0; CFinish 0 0 5 0]) 0 60 in
+  let r := map CsRun in
+  let sched := r [0;0;0;0]%nat ++ [CsTick 2700; CsTick 2700] ++ r [1;1;1;1;1;1;1]%nat ++ [CsTick 2700] ++ r [0;0;0]%nat in
+  let s := cs_run CsOrig cfg (cs_init_on m0 [[CsGet2 0]; [CsLoad 0]]) sched in
+  (cs_mis s = true /\
+   cs_log s = [(0%nat, CsGet2 0, CsRVal 0 0, OImmediate); (1%nat, CsLoad 0, CsRFut 0%nat true, OLoad 0%nat true)] /\
+   cs_fdone (cs_m s) 1 = None /\ c_lookup (c_map (cs_m s)) 0 = Some 1%nat) /\
+  let s' := cs_run CsFixed cfg (cs_init_on m0 [[CsGet2 0]; [CsLoad 0]]) (sched ++ r [0;0;0;1;1;1;1;1;1;1;0;0]%nat) in
+  cs_mis s' = false /\ cs_bad s' = false /\ (In (0%nat, CsGet2 0, CsRVal 0 0, OImmediate) (cs_log s') -> False).
+Proof. vm_compute. split; [repeat split|]. split; [reflexivity|]. split; [reflexivity|]. intros H. repeat (destruct H as [H|H]; [discriminate H|]). exact H. Qed.
+Print Assumptions cache_get2_stall_orig_refuted.
